@@ -1,8 +1,41 @@
 """C18 blind RSA / partially blind RSA / PSS verifier equivalence.  spec/C18"""
-import os, random, copy
+import json, os, random, copy
+from concurrent.futures import ThreadPoolExecutor
 from vlib import common as C
 
 LEVEL = "model_checking"
+
+
+def digits(x):
+    d = []
+    while x > 0:
+        d.append(x & 4095)
+        x >>= 12
+    return d
+
+
+def pss_job(w, i, ln):
+    """RFC 8017 RSASSA-PSS-VERIFY executed by TLC (RsaPssVerifyJob.tla); the quotients of the 17 modular products are untrusted hints."""
+    n, sig = int(ln["n_hex"], 16), bytes.fromhex(ln["sig_hex"])
+    s0 = int.from_bytes(sig, "big")
+    hs, qs, x = [], [], s0
+    for step in range(17):
+        y = x if step < 16 else s0
+        q, r = divmod(x * y, n)
+        hs.append(digits(r)); qs.append(digits(q)); x = r
+    job = {"n": digits(n), "sig": list(sig), "msg": list(bytes.fromhex(ln["msg_hex"])), "modbits": ln["bits"], "slen": ln["slen"], "auto": ln["auto"], "hs": hs, "qs": qs, "accepted": ln["lib"]}
+    d = os.path.join(w, "pss%d" % i)
+    os.makedirs(d, exist_ok=True)
+    C.stage_specs(d, "C18")
+    json.dump(job, open(os.path.join(d, "job.json"), "w"))
+    r = C.tlc(d, "RsaPssVerifyJob", "RsaPssVerifyJob.cfg", workers=1, heap="3g", timeout=3000, stack="256m")
+    vp = os.path.join(d, "verdict.json")
+    if not r.ok or not os.path.exists(vp):
+        raise C.Infra("RsaPssVerifyJob failed:\n%s" % r.tail(40))
+    v = json.load(open(vp))
+    if not v["done"] or not v["chain_ok"]:
+        raise C.Infra("RsaPssVerifyJob: did not finish or rejected the harness's own quotient hints:\n%s" % r.tail(20))
+    return v, r.distinct
 
 
 def run(tier, rep, replay=None):
@@ -26,6 +59,27 @@ def run(tier, rep, replay=None):
         else:
             key = "flow:%s:bits=%d:%s:%s" % (ln["variant"], ln["bits"], ln["site"], "panic" if ln["panics"] else ("finalized" if ln["finalize_ok"] else "failed"))
         rep.violation(key, {"observed": ln, "explain": "outcome differs from Trace_BlindRsa.tla / EmsaPss.tla"})
+    # ---- TLC executes RSASSA-PSS-VERIFY itself (RSAVP1 with checked quotients, SHA-384, MGF1, EMSA-PSS) on a sample of the (message, signature) pairs
+    rnd0 = random.Random(C.SEED)
+    pl = [l for l in lines if l["ev"] == "pss" and not l["panics"]]
+    bysite = {}
+    for l in pl:
+        bysite.setdefault((l["site"], l["bits"] <= 1031), []).append(l)
+    pick = []
+    for k in sorted(bysite):
+        if k[1] or thorough:                       # 1024..1031-bit keys in quick (about 15 s each), all sizes in thorough
+            pick.append(rnd0.choice(bysite[k]))
+    if not thorough:
+        rnd0.shuffle(pick)
+        honest = [l for l in pick if l["site"] == "none"][:1]
+        pick = honest + [l for l in pick if l["site"] != "none"][:7]
+    with ThreadPoolExecutor(min(C.NCPU, 12)) as ex:
+        pres = list(ex.map(lambda il: pss_job(w, il[0], il[1]), enumerate(pick)))
+    for ln, (v, _) in zip(pick, pres):
+        if not v["agrees"]:
+            rep.violation("rfc8017:%s:bits=%d:%s:lib=%s" % (ln["variant"], ln["bits"], ln["site"], ln["lib"]),
+                          {"n": ln["n_hex"], "sig": ln["sig_hex"], "msg": ln["msg_hex"], "tlc_verdict": v["verdict"], "explain": "the library's verdict differs from RSASSA-PSS-VERIFY executed by TLC (RsaPssVerifyJob.tla)"})
+    rep.add(tlc_executed_pss_verify=len(pick), tlc_executed_sites=sorted({l["site"] for l in pick}))
     rnd = random.Random(C.SEED)
     good = [i for i in range(len(lines)) if i not in set(bad)]
     gp = [i for i in good if lines[i]["ev"] == "pss"]
@@ -43,12 +97,12 @@ def run(tier, rep, replay=None):
             key_bits=sorted({l["bits"] for l in lines}), pss_cases=len(gp), variants=sorted({l["variant"] for l in lines}))
     for l in [x for x in lines if x["ev"] == "flow"][:2] + [x for x in lines if x["ev"] == "signer"][:2]:
         rep.sample({k: v for k, v in l.items() if k not in ("em", "dbmask", "mhash", "salt", "hprime")})
-    rep.assumptions += ["SHA-384 and MGF1 values in pss lines are computed by the Go standard library and supplied as hints; TLC decides the EMSA-PSS structure itself",
+    rep.assumptions += ["for every pss line SHA-384 and MGF1 values are hints from the Go standard library and TLC decides the EMSA-PSS structure; for a sample TLC executes the whole RSASSA-PSS-VERIFY itself - modular exponentiation with checked quotient hints, SHA-384 and MGF1 in TLA+ (RsaPssVerifyJob.tla)",
                         "random keys per class (modulus bits 1024, 1025, 1031, 2048; more in thorough) drawn from the seed"]
 
 
 MANIFEST = {
- "text": "BlindRsa.tla model-checks the blind-signature state machine over a toy modulus (N=77): for all messages and blinding factors Finalize(BlindSign(Blind(m))) = m^d, the result does not depend on the blind, and any altered blind signature never finalises. The driver runs the four RFC 9474 variants and the partially blind variant on real keys whose modulus has 1024 / 1025 / 1031 / 2048 bits (emBits a multiple of 8, short top byte): honest flows (signature verifies with the package verifier AND crypto/rsa.VerifyPSS, is independent of the blinding factor, has modulus length), every alteration of the blind signature (bit flips, 0, 1, N-1, N, N+1, wrong lengths, signature under other metadata) must be refused by Finalize, and the signer's range rule (accept iff right length and below N). For (message, signature) pairs made by raw-signing honest and deliberately malformed encoded messages (trailer, padding bytes, separator, top bits, masked DB bit, salt length, H) TLC evaluates EMSA-PSS-VERIFY (EmsaPss.tla) on the recorded EM and requires package verdict = crypto/rsa verdict = spec verdict.",
+ "text": "RsaPssVerifyJob.tla is RFC 8017 RSASSA-PSS-VERIFY as an executable behaviour (s^65537 mod n as 17 products whose quotients are untrusted hints checked with multi-precision arithmetic, I2OSP, SHA-384 one action per round, MGF1, the EMSA-PSS structure incl. Go's automatic salt length): TLC itself decides a sample of the honest and malformed (message, signature) pairs of the run and must agree with the package verifier. BlindRsa.tla model-checks the blind-signature state machine over a toy modulus (N=77): for all messages and blinding factors Finalize(BlindSign(Blind(m))) = m^d, the result does not depend on the blind, and any altered blind signature never finalises. The driver runs the four RFC 9474 variants and the partially blind variant on real keys whose modulus has 1024 / 1025 / 1031 / 2048 bits (emBits a multiple of 8, short top byte): honest flows (signature verifies with the package verifier AND crypto/rsa.VerifyPSS, is independent of the blinding factor, has modulus length), every alteration of the blind signature (bit flips, 0, 1, N-1, N, N+1, wrong lengths, signature under other metadata) must be refused by Finalize, and the signer's range rule (accept iff right length and below N). For (message, signature) pairs made by raw-signing honest and deliberately malformed encoded messages (trailer, padding bytes, separator, top bits, masked DB bit, salt length, H) TLC evaluates EMSA-PSS-VERIFY (EmsaPss.tla) on the recorded EM and requires package verdict = crypto/rsa verdict = spec verdict.",
  "note": "Keys are random per class; quick flips 64 bits per variant and key, thorough flips every bit and adds 1032/2049/3072/4096-bit keys.",
- "technique": "TLC exhaustive check of toy blind-RSA state machine + scenario replay on real code + TLC evaluation of EMSA-PSS-VERIFY on recorded encodings (differential with crypto/rsa)",
+ "technique": "executable RFC 8017 RSASSA-PSS-VERIFY in TLA+ deciding sampled signatures + TLC exhaustive check of toy blind-RSA state machine + scenario replay on real code + TLC evaluation of EMSA-PSS-VERIFY on recorded encodings (differential with crypto/rsa)",
 }
